@@ -6,6 +6,7 @@ import (
 	"fmt"
 	"io"
 	"os"
+	"os/exec"
 	"path/filepath"
 	"strings"
 	"time"
@@ -36,6 +37,9 @@ func (c17) Batches(tier string, seed uint64) []core.Batch {
 	b = append(b, spread("full", 4, tierN(tier, 800, 4000))...)
 	b = append(b, spread("prefix", 16, tierN(tier, 8, 60))...)
 	b = append(b, spread("malformed", 2, tierN(tier, 600, 3000))...)
+	if tier == "thorough" {
+		b = append(b, spread("dpkg-legality", 4, 60)...)
+	}
 	return b
 }
 
@@ -452,6 +456,41 @@ func (p c17) RunBatch(t *core.T, b core.Batch) {
 				in, _ := json.Marshal(cs)
 				t.Case("prefix", in, func(c *core.C) { p.prefix(c, cs) })
 			}
+		}
+	case "dpkg-legality":
+		// generator self-check (thorough): dpkg-parsechangelog must read every generated
+		// changelog and agree on count, Source, Version, Distribution, Maintainer and Date
+		if !have("dpkg-parsechangelog") {
+			t.Cover("dpkg-legality:dpkg-parsechangelog-unavailable")
+			return
+		}
+		for i := 0; i < b.N; i++ {
+			d := genChangelog(r, 4)
+			text, _, _ := d.render()
+			t.Case("dpkg-legality", []byte(text), func(c *core.C) {
+				fp := filepath.Join(t.WorkDir, "dpkg-legality.changelog")
+				os.WriteFile(fp, []byte(text), 0o644)
+				defer os.Remove(fp)
+				out, err := exec.Command("dpkg-parsechangelog", "-l", fp, "--all", "--format", "rfc822").Output()
+				if err != nil {
+					c.Cover("~inconclusive:dpkg-parsechangelog rejects a generated changelog (generator self-check)")
+					return
+				}
+				ref, ok := model.RefRead(string(out))
+				if !ok || len(ref) != len(d.Entries) {
+					c.Cover("~inconclusive:dpkg-parsechangelog sees a different number of entries than the generator wrote (generator self-check)")
+					return
+				}
+				for k, e := range d.Entries {
+					get := func(f string) string { return strings.Join(ref[k].Lines[f], "\n") }
+					if get("Source") != e.Source || get("Version") != e.Version || get("Distribution") != strings.Join(e.Dists, " ") || get("Maintainer") != e.Who || get("Date") != e.When {
+						c.Cover("~inconclusive:dpkg-parsechangelog reads an entry differently from the generator's model (generator self-check)")
+						t.AddSample("dpkg-disagrees", text, fmt.Sprintf("entry %d: dpkg %q/%q/%q/%q/%q", k, get("Source"), get("Version"), get("Distribution"), get("Maintainer"), get("Date")))
+						return
+					}
+				}
+				c.Cover("dpkg-legality:agreed-with-dpkg-parsechangelog")
+			})
 		}
 	case "malformed":
 		for i := 0; i < b.N; i++ {
